@@ -216,6 +216,20 @@ def run_main(spec, acc):
       continue
     old_root, new_root, edits, mode, old, new = pair
     so, sn = gen.sketch(old_root), gen.sketch(new_root)
+    if rng.random() < 0.2:
+      # new gains a TAGGED **kwargs argument that old does not have (value and tag arrive together)
+      from vt import tags as vtags
+      hosts = [b for b in C.identity_objects(new, include_internals=False).get('buildable', {}).values()
+               if type(b) in (fdl.Config, fdl.Partial) and b.__signature_info__.has_var_keyword]
+      if hosts:
+        hb = rng.choice(hosts)
+        nm = rng.choice(['extra_new', 'extra_q'])
+        if nm not in hb.__arguments__:
+          setattr(hb, nm, rng.choice([7, 'v', [1]]))
+          fdl.add_tag(hb, nm, rng.choice(vtags.ALL))
+          edits = list(edits) + ['tagged-kwargs-argument-added']
+          sn = sn + f'  [+ tagged **kwargs argument {nm}]'
+          acc.obs('pairs_adding_a_tagged_kwargs_argument')
     try:
       diff = diffing.build_diff(old, new)
     except Exception as e:  # pylint: disable=broad-except
